@@ -208,6 +208,7 @@ type c19Case struct {
 	saveAt  []bool // hist: save after the fixture, after op i ...
 	delay   int64  // ms between shutdown and restart
 	a, b    [][]string
+	stray   []string // files that appear next to the snapshots before the restart (name suffixes after the base path)
 }
 
 func c19Fixtures() [][]Op {
@@ -379,6 +380,11 @@ func c19List(tier string) (out []c19Case, nHist, nCrash int) {
 			}
 		}
 	}
+	// files with similar names next to the snapshots: out-of-range and malformed indexes, left-over temporaries,
+	// other base names with the same prefix
+	for _, stray := range [][]string{{".db16"}, {".db-1"}, {".db99999999999"}, {".db"}, {".dbx"}, {".db1.tmp", ".db0.tmp"}, {".db01x"}, {"2.db0"}, {".db3.bak", ".db+2"}, {".db16", ".db-1", ".dbx", ".db0.tmp"}} {
+		out = append(out, c19Case{kind: "hist", fixture: 2, ops: [][]string{{"SET", "kn", "v"}}, saveAt: []bool{true, true}, stray: stray})
+	}
 	nHist = len(out)
 	for _, t := range c19Transitions(tier) {
 		out = append(out, c19Case{kind: "crash", a: t.a, b: t.b})
@@ -414,6 +420,9 @@ func c19Name(cs c19Case) string {
 	}
 	var parts []string
 	parts = append(parts, fmt.Sprintf("fixture%d", cs.fixture))
+	if len(cs.stray) > 0 {
+		parts = append(parts, "stray files "+strings.Join(cs.stray, " "))
+	}
 	if cs.saveAt[0] {
 		parts = append(parts, "save")
 	}
@@ -446,6 +455,9 @@ func c19Class(cs c19Case) string {
 			continue
 		}
 		n = append(n, strings.ToUpper(o[0]))
+	}
+	if len(cs.stray) > 0 {
+		return "stray" + strings.Join(cs.stray, "")
 	}
 	return strings.Join(n, "+")
 }
@@ -501,6 +513,10 @@ func runC19(cs c19Case) (cr caseResult) {
 		verifrt.SetNow(time.UnixMilli(epochMs + cs.delay).UTC().Add(time.Duration(tick+1) * time.Microsecond))
 		if before, derr = dumpDBs(obs); derr != nil {
 			return
+		}
+		for _, suffix := range cs.stray {
+			// something else wrote files with similar names into the directory: none of them is a database of ours
+			vos.WriteFile(c19Base+suffix, []byte("not a snapshot"), 0o644)
 		}
 		vi2 := redisemu.VNew(c19Base)
 		cl2 := vi2.NewClient()
